@@ -107,7 +107,13 @@ A third round (b10–b13, eight sub-agents again) asked for changes that are **n
 observable the properties leave open (error texts, capacities, defaults, the order in which independent peers are served), extra
 defensive work, a different data structure or algorithm with the same guarantees, a small feature whose default keeps today's
 behaviour.  `F-b9` is the former seed C04-3 (see 5.1).  This round is the sharper test of "no alarm where the property holds":
-a clause that is stronger than the property fails on such a change.  It was run blind as well; what it found is listed below the table.
+a clause that is stronger than the property fails on such a change.  Run blind, it raised one alarm (B-b11, reported by the seven
+checks that use the request/reply router): the router now discards a non-`Message` frame from the replier at once instead of
+parking it until the requestors' router refuses it, and the ghost ledger `reply_handed_over_exactly_once` counted *every* frame
+taken from the replier.  C02 speaks of replies; the ledger was restricted to `Message` frames and the alarm is gone.  The rebased
+F-b4 (which splits `request` into helpers) raised an alarm from the new timed-wait monitor of C04, which was then made absolute
+for primitive waits only (§2.1).  Both are corrections of checks that demanded more than the property states (§2.6, false alarms),
+not loosened checks: each clause still states its sentence of the property.
 `benignall.py` applies each and runs the checks of every property anchored in the touched files and of every property one of
 whose units extracts code from a touched file.  A VIOLATION here is a false
 alarm.  Last run: **{nok} OK, {nun} undecided, {nfa} false alarms** in {len(ben)} check runs.
